@@ -24,6 +24,9 @@ import EaselModel.Dist.HxpQuantile
 import EaselModel.Dist.MixgevAll
 import EaselModel.Dist.InvRight
 import EaselModel.Dist.InvTotal
+import EaselModel.Dist.GamSampleGen
+import EaselModel.Dist.DLogSumAll
+import EaselModel.Dist.Limits
 /-! # C10 — each distribution's pdf, cdf, survival, log and inverse functions agree
 
 Full statement (properties.jsonl): for every supported continuous distribution and all valid parameters and arguments
@@ -567,6 +570,56 @@ theorem mixture_log_versions_partial :
     fun _ _ hx hK hw hpos hfin hwin => MixLogGen.hxp_logpdf_eq hx hK hw hpos hfin hwin,
     fun _ _ hx hK hw hpos hfin hwin => MixLogClose.hxp_logcdf_close hx hK hw hpos hfin hwin⟩
 
+/-- Round 6 — the `_partial` above made full: mixture log versions with NO window hypothesis.
+    `esl_vec_DLogSum` (translated) adds `exp (v_i − max)` only for entries inside the 500-window below the maximum; for
+    EVERY vector (`n ≥ 1`, maximum not the infinity symbol) the result lies below `log Σ_{i<n} exp v_i` by at most
+    `n · e^{-500}` (`≈ n · 7e-218`: far below one ulp of any representable result).  Consequently, for positive coefficients
+    and EVERY spread of the rates, on `x ≥ μ`: `log esl_hxp_surv − K e^{-500} ≤ esl_hxp_logsurv ≤ log esl_hxp_surv`, and the
+    same for `esl_hxp_logpdf` (finite rates); for the GEV mixture (`MixgevLog.Inside g x`, as in `mixgev_log_versions`, but WITHOUT
+    its window hypothesis): `logcdf`, `logpdf` within `K e^{-500}` below the logarithm of the textbook mixture, `logsurv` within
+    `3e-8 + K e^{-500}`. -/
+theorem mixture_log_versions :
+    (∀ (vec : List ℝ) (n : ℕ), 1 ≤ n → esl_vec_DMax vec n ≠ (Num.inf : ℝ) →
+      esl_vec_DLogSum vec n ≤ log (∑ i ∈ Finset.range n, exp (vec.getD i 0)) ∧
+      log (∑ i ∈ Finset.range n, exp (vec.getD i 0)) ≤ esl_vec_DLogSum vec n + n * exp (-500)) ∧
+    (∀ (h : ESL_HYPEREXP ℝ) (x : ℝ), h.mu ≤ x → 1 ≤ h.K → h.K ≤ h.wrk.length → (∀ k < h.K, 0 < MixGen.hq h k) →
+      (∀ k < h.K, MixLogGen.entry h (fun l => esl_exp_logsurv x h.mu l) k ≠ (Num.inf : ℝ)) →
+      esl_hxp_logsurv x h ≤ log (esl_hxp_surv x h) ∧ log (esl_hxp_surv x h) ≤ esl_hxp_logsurv x h + h.K * exp (-500)) ∧
+    (∀ (h : ESL_HYPEREXP ℝ) (x : ℝ), h.mu ≤ x → 1 ≤ h.K → h.K ≤ h.wrk.length →
+      (∀ k < h.K, 0 < MixGen.hq h k ∧ 0 < MixGen.hl h k ∧ MixGen.hl h k ≠ (Num.inf : ℝ)) →
+      (∀ k < h.K, MixLogGen.entry h (fun l => esl_exp_logpdf x h.mu l) k ≠ (Num.inf : ℝ)) →
+      esl_hxp_logpdf x h ≤ log (esl_hxp_pdf x h) ∧ log (esl_hxp_pdf x h) ≤ esl_hxp_logpdf x h + h.K * exp (-500)) ∧
+    (∀ (g : ESL_MIXGEV ℝ) (x : ℝ), MixgevLog.Inside g x →
+      ((∀ k < g.K, MixgevLog.entryG g (fun k => esl_gev_logcdf x (MixGen.gm g k) (MixGen.gl g k) (MixGen.ga g k)) k ≠ (Num.inf : ℝ)) →
+        esl_mixgev_logcdf x g ≤ log (MixGen.mixgevCdf g x) ∧ log (MixGen.mixgevCdf g x) ≤ esl_mixgev_logcdf x g + g.K * exp (-500)) ∧
+      ((∀ k < g.K, MixgevLog.entryG g (fun k => esl_gev_logpdf x (MixGen.gm g k) (MixGen.gl g k) (MixGen.ga g k)) k ≠ (Num.inf : ℝ)) →
+        esl_mixgev_logpdf x g ≤ log (MixGen.mixgevPdf g x) ∧ log (MixGen.mixgevPdf g x) ≤ esl_mixgev_logpdf x g + g.K * exp (-500)) ∧
+      ((∀ k < g.K, MixgevLog.entryG g (fun k => esl_gev_logsurv x (MixGen.gm g k) (MixGen.gl g k) (MixGen.ga g k)) k ≠ (Num.inf : ℝ)) →
+        |esl_mixgev_logsurv x g - log (MixGen.mixgevSurv g x)| ≤ 3e-8 + g.K * exp (-500))) :=
+  ⟨fun vec _ hn hfin => DLogSumAll.dlogsum_bound vec hn hfin,
+    fun _ _ hx hK hw hpos hfin => DLogSumAll.hxp_logsurv_all hx hK hw hpos hfin,
+    fun _ _ hx hK hw hpos hfin => DLogSumAll.hxp_logpdf_all hx hK hw hpos hfin,
+    fun _ _ hi => DLogSumAll.mixgev_log_all hi⟩
+
+/-- non-vacuity: an entry 600 below the maximum is OUTSIDE the window (the round-4 theorem does not apply), the new bound
+    does; `c` is any real number other than the opaque infinity symbol -/
+example : ∃ c : ℝ, esl_vec_DLogSum [c, c - 600] 2 ≤ log (∑ i ∈ Finset.range 2, exp (([c, c - 600] : List ℝ).getD i 0)) ∧
+    ¬ (esl_vec_DMax [c, c - 600] 2 - 500 < ([c, c - 600] : List ℝ).getD 1 0) := by
+  have key : ∀ c : ℝ, esl_vec_DMax [c, c - 600] 2 = c := by
+    intro c
+    obtain ⟨⟨hmax, j, hj, hjm⟩, _⟩ := MixGen.vec_dmax_dmin [c, c - 600] (n := 2) (by norm_num)
+    have h0 := hmax 0 (by norm_num)
+    have : j = 0 ∨ j = 1 := by omega
+    rcases this with rfl | rfl
+    · simpa using hjm
+    · simp at hjm h0; linarith
+  obtain ⟨c, hc⟩ : ∃ c : ℝ, c ≠ (Num.inf : ℝ) := by
+    by_cases h : (0 : ℝ) = Num.inf
+    · exact ⟨1, by rw [← h]; norm_num⟩
+    · exact ⟨0, h⟩
+  refine ⟨c, (mixture_log_versions.1 [c, c - 600] 2 (by norm_num) (by rw [key]; exact hc)).1, ?_⟩
+  rw [key]; simp; linarith
+
 /-- log versions of the GEV mixture (TRANSLATED loops + `esl_vec_DLogSum`; `MixgevLog.Inside g x`: `K ≥ 1`, the scratch
     vector has `K` slots, coefficients and scales positive, every component in its GEV branch and `x` inside every support;
     the stored log-terms finite and within the 500-window): `esl_mixgev_logcdf = log cdf` and `esl_mixgev_logpdf = log pdf`
@@ -904,6 +957,45 @@ example : ∃ r, ∀ fuel, BisectTotal.fuelMix (0 - 0) (1 - 0) ≤ fuel →
     (fun x hx => le_max_of_le_right (le_min (by linarith) (by norm_num)))
   exact ⟨r, hr⟩
 
+/-! ## Round 6: "non-decreasing FROM 0 TO 1" for the families that still lacked the limits -/
+
+/-- Weibull: `0` at and below `μ`, `→ 1` at `+∞`.  GEV, either sign of `α`: `→ 0` at `−∞` and `→ 1` at `+∞` (on its bounded
+    side the value `0` resp. `1` is attained beyond the support bound).  GEV mixture, EVERY number of components:
+    `→ 0` at `−∞`, `→ Σq` at `+∞`.  (Exponential, Gumbel, normal, gamma, stretched exponential, hyperexponential: in their
+    own theorems above.)  With the monotonicity already proved, every textbook cdf of the library runs from 0 to 1 (`Σq`). -/
+theorem cdf_limits_wei_gev_mixgev {μ l τ α : ℝ} (hl : 0 < l) (hτ : 0 < τ) (hα : α ≠ 0) :
+    ((∀ x, x ≤ μ → weiCdf μ l τ x = 0) ∧ Filter.Tendsto (weiCdf μ l τ) Filter.atTop (nhds 1)) ∧
+    (Filter.Tendsto (gevCdf μ l α) Filter.atBot (nhds 0) ∧ Filter.Tendsto (gevCdf μ l α) Filter.atTop (nhds 1)) ∧
+    (∀ g : ESL_MIXGEV ℝ, MixGen.MixgevOK g → Filter.Tendsto (MixGen.mixgevCdf g) Filter.atBot (nhds 0) ∧
+      Filter.Tendsto (MixGen.mixgevCdf g) Filter.atTop (nhds (MixGen.mixgevQ g))) :=
+  ⟨⟨fun x hx => by simp [weiCdf, hx], Limits.weiCdf_tendsto_one hl hτ⟩,
+    ⟨Limits.gevCdf_tendsto_zero hl hα, Limits.gevCdf_tendsto_one hl hα⟩, fun _ ok => Limits.mixgevCdf_tendsto ok⟩
+
+/-- GEV mixture, "the inverse cdf inverts the cdf" at L2, every `K`: for `p ∈ (0, Σq)` the bracketing + bisection ALGORITHM of
+    `esl_mixgev_invcdf` (`Bisect.invcdfMix`, which the translated function is an instance of) run on the textbook mixture
+    cdf from any starting point `m` is TOTAL — bracketing points `XL`, `XR` exist by the limits, the fuel bound is the
+    explicit `fuelMix (m − XL) (XR − m)`, ONE value `r` for all larger fuels — and `r` is the midpoint of a final bracket
+    `[a, b]` with `cdf a ≤ p ≤ cdf b` and `b − a ≤ 1e-6 (|a| + |b| + 1e-9)`.  (The mixture cdf need not be strictly
+    increasing — components have different supports — so "the" quantile is the bracket, not a point.) -/
+theorem mixgev_inverse_laws {g : ESL_MIXGEV ℝ} (ok : MixGen.MixgevOK g) {p : ℝ} (hp0 : 0 < p) (hp1 : p < MixGen.mixgevQ g) (m : ℝ) :
+    ∃ XL XR r, (∀ x, x ≤ XL → MixGen.mixgevCdf g x ≤ p) ∧ (∀ x, XR ≤ x → p ≤ MixGen.mixgevCdf g x) ∧
+      (∀ fuel, BisectTotal.fuelMix (m - XL) (XR - m) ≤ fuel → Bisect.invcdfMix fuel (MixGen.mixgevCdf g) p m = some r) ∧
+      ∃ a b, a ≤ b ∧ r = (a + b) / 2 ∧ MixGen.mixgevCdf g a ≤ p ∧ p ≤ MixGen.mixgevCdf g b ∧ b - a ≤ 1e-6 * ((|a| + |b|) + 1e-9) :=
+  Limits.mixgev_bisection_total ok hp0 hp1 m
+
+/-- non-vacuity: a Fréchet-type and a Weibull-type component, `Σq = 1`, `p = 1/2` -/
+example : ∃ r, ∃ N : Nat, ∀ fuel, N ≤ fuel → Bisect.invcdfMix fuel
+    (MixGen.mixgevCdf ({ K := 2, q := [0.5, 0.5], mu := [0, 1], lambda := [1, 2], alpha := [0.5, -0.5], wrk := [0, 0] } : ESL_MIXGEV ℝ))
+    (1 / 2) 0 = some r := by
+  have ok : MixGen.MixgevOK ({ K := 2, q := [0.5, 0.5], mu := [0, 1], lambda := [1, 2], alpha := [0.5, -0.5], wrk := [0, 0] } : ESL_MIXGEV ℝ) := by
+    intro k hk
+    have : k = 0 ∨ k = 1 := by simp only at hk; omega
+    rcases this with rfl | rfl <;> simp [MixGen.gq, MixGen.gl, MixGen.ga] <;> norm_num
+  have hQ : MixGen.mixgevQ ({ K := 2, q := [0.5, 0.5], mu := [0, 1], lambda := [1, 2], alpha := [0.5, -0.5], wrk := [0, 0] } : ESL_MIXGEV ℝ) = 1 := by
+    simp [MixGen.mixgevQ, MixGen.gq, Finset.sum_range_succ]; norm_num
+  obtain ⟨XL, XR, r, _, _, hr, _⟩ := mixgev_inverse_laws ok (p := 1 / 2) (by norm_num) (by rw [hQ]; norm_num) 0
+  exact ⟨r, _, hr⟩
+
 /-! ## The pdf integrates to cdf differences -/
 
 /-- Fundamental theorem of calculus on the proved derivatives, for the four closed-form families and both mixtures:
@@ -1007,7 +1099,8 @@ theorem sampler_primitive_arguments {α : Type} [Add α] [Sub α] [Mul α] [Div 
     * `esl_sxp_Sample t` (`t` = Gamma(1/τ) variate) `= μ + t^{1/τ}/λ > μ`, textbook `F_sxp(Sample t) = P(1/τ, t)`, and for the
       code's own cdfs `esl_sxp_cdf (Sample t) = esl_gam_cdf t 0 1 (1/τ)`;
     * `esl_lognormal_Sample g` (`g` = standard Gaussian variate) `= e^{μ+σg} > 0`, textbook `F_lognormal(Sample g) = Φ(g)`;
-    * `esl_gam_Sample` (hand model `Mix.gamSample` of the redraw loop over the stream of Gamma(τ) variates): the result is
+    * `esl_gam_Sample` (`Mix.gamSample`, the redraw loop over the stream of Gamma(τ) variates — since round 6 the TRANSLATED
+      function is proved equal to it, `gam_sample_generated`): the result is
       `μ + t/λ` for a variate `t` of the stream, never `μ` itself, and `F_gam(μ + t/λ) = P(τ, t)`. -/
 theorem transformed_samples {μ l τ : ℝ} (hl : 0 < l) (hτ : 0 < τ) :
     (∀ t, 0 < t → esl_sxp_Sample t μ l τ = μ + 1 / l * t ^ (1 / τ) ∧ μ < esl_sxp_Sample t μ l τ ∧
@@ -1025,5 +1118,24 @@ theorem transformed_samples {μ l τ : ℝ} (hl : 0 < l) (hτ : 0 < τ) :
 /-- the redraw really happens: a first variate of `0` is skipped -/
 example : Mix.gamSample (3 : ℝ) 2 [0, 4] = some (3 + 4 / 2) := by
   simp [Mix.gamSample]
+
+/-- Round 6: `esl_gam_Sample` is TRANSLATED from the working tree (its redraw loop draws inside a `do … while`: the
+    generator parameter becomes the stream `u : Nat → α` of Gamma(τ) variates, iteration `i` reads `u i`; `none` = the first
+    `fuel` variates are all absorbed, the C loop would draw again).  For EVERY carrier the generated function is the redraw
+    loop `Mix.gamSample` (the former hand model, now only a specification) on the first `fuel` variates, and it hands `τ` to
+    `esl_rnd_Gamma`; over `ℝ` a returned `x` is `μ + u i / λ ≠ μ` for the FIRST index `i` that is not absorbed, and `none`
+    occurs exactly when all `fuel` variates are absorbed. -/
+theorem gam_sample_generated {α : Type} [Add α] [Sub α] [Mul α] [Div α] [Neg α] [OfScientific α] [LT α] [LE α]
+    [DecidableLT α] [DecidableLE α] [Num α] (fuel : Nat) (u : Nat → α) (mu l t : α) (v : Nat → ℝ) (μ lam τ : ℝ) :
+    esl_gam_Sample fuel u mu l t = Mix.gamSample mu l ((List.range fuel).map u) ∧ esl_gam_Sample_draw mu l t = [t] ∧
+    (∀ x, esl_gam_Sample fuel v μ lam τ = some x →
+      ∃ i, i < fuel ∧ x = μ + v i / lam ∧ x ≠ μ ∧ ∀ j, j < i → μ + v j / lam = μ) ∧
+    (esl_gam_Sample fuel v μ lam τ = none ↔ ∀ i, i < fuel → μ + v i / lam = μ) :=
+  ⟨GamSampleGen.gam_sample_eq fuel u mu l t, rfl, (GamSampleGen.gam_sample_real fuel v).1, (GamSampleGen.gam_sample_real fuel v).2⟩
+
+/-- the redraw really happens on the generated function: a first variate of `0` is skipped -/
+example : esl_gam_Sample 2 (fun i => if i = 0 then (0 : ℝ) else 4) 3 2 1 = some (3 + 4 / 2) := by
+  rw [(gam_sample_generated (α := ℝ) 2 (fun i => if i = 0 then (0 : ℝ) else 4) 3 2 1 (fun _ => 0) 0 1 1).1]
+  simp [Mix.gamSample, List.range_succ]
 
 end EaselModel.Props.C10
